@@ -131,6 +131,9 @@ def _cases():
         ('fancy-gather', lambda c: (sym(c, a5)[sym(c, np.array([4, 0, 0, 2]))], a5[np.array([4, 0, 0, 2])])),
         ('broadcast_to', lambda c: (npshim.broadcast_to(sym(c, m23)[:, :, None], (2, 3, 2)), np.broadcast_to(m23[:, :, None], (2, 3, 2)))),
         ('squeeze', lambda c: (npshim.squeeze(sym(c, m23[:, :, None])), np.squeeze(m23[:, :, None]))),
+        ('flatnonzero', lambda c: (npshim.flatnonzero(sym(c, np.array([0.0, 2.0, 0.0, -1.0]))), np.flatnonzero(np.array([0.0, 2.0, 0.0, -1.0])))),
+        ('full_like-nan', lambda c: (npshim.isnan(npshim.full_like(sym(c, i5), np.nan, dtype=float)), np.isnan(np.full_like(i5, np.nan, dtype=float)))),
+        ('full_like', lambda c: (npshim.full_like(sym(c, a5), 3), np.full_like(a5, 3))),
         ('squeeze-axis', lambda c: (npshim.squeeze(sym(c, m23[:, None, :, None]), axis=-1), np.squeeze(m23[:, None, :, None], axis=-1))),
         ('squeeze-axis1', lambda c: (npshim.squeeze(sym(c, m23[:, None, :]), axis=1), np.squeeze(m23[:, None, :], axis=1))),
         ('all-axis1', lambda c: (npshim.all_(sym(c, np.array([[True, True], [True, False]])), axis=1), np.all(np.array([[True, True], [True, False]]), axis=1))),
@@ -237,6 +240,65 @@ def _cases():
         r *= 2
         return [(y, ry), (m, rm), (z, rz), (v, rv), (x, r)]
     C.append(('derived-array-is-computed-when-the-statement-runs', derived_then_store))
+
+    # -- small programs mixing views, derived arrays and in-place updates, run on the proxies and on numpy
+    def prog_views(c):
+        x = sym(c, a5.copy())
+        v = x[1:4]
+        v[0] = 5.0                      # write through a view
+        y = x * 2                       # derived now
+        x[2] = 7.0                      # later store: y keeps its value, v sees it
+        v2 = v[1:]                      # view of a view
+        x[3] = -1.0
+        z = v2 + 1
+        r = a5.copy()
+        rv = r[1:4]
+        rv[0] = 5.0
+        ry = r * 2
+        r[2] = 7.0
+        rv2 = rv[1:]
+        r[3] = -1.0
+        rz = rv2 + 1
+        return [(x, r), (v, rv), (y, ry), (v2, rv2), (z, rz)]
+    C.append(('program-views-and-derived-arrays', prog_views))
+
+    def prog_2d(c):
+        X = sym(c, m23.copy())
+        row = X[1]                      # view
+        col = X[:, 2].copy()            # copy of a view
+        s_ = npshim.sum_(X, axis=1)     # derived
+        X[:, 0] = 9.0
+        X[1, 1] *= 3
+        t_ = X.T                        # view
+        X[0, 2] = -4.0
+        R_ = m23.copy()
+        rrow, rcol, rs = R_[1], R_[:, 2].copy(), R_.sum(axis=1)
+        R_[:, 0] = 9.0
+        R_[1, 1] *= 3
+        rt = R_.T
+        R_[0, 2] = -4.0
+        return [(X, R_), (row, rrow), (col, rcol), (s_, rs), (t_, rt)]
+    C.append(('program-2d-views-copies-reductions', prog_2d))
+
+    def prog_masks(c):
+        x = sym(c, a5.copy())
+        m = x > 2.5                     # derived mask
+        x[m] = 0.0                      # masked store
+        x[0] = 9.0                      # m keeps its value
+        g = x[m]                        # gather with the OLD mask, NEW contents
+        w_ = x[:3]
+        w_ *= 2                         # in-place op on a view
+        x -= 1                          # in-place op on the base
+        r = a5.copy()
+        rm = r > 2.5
+        r[rm] = 0.0
+        r[0] = 9.0
+        rg = r[rm]
+        rw = r[:3]
+        rw *= 2
+        r -= 1
+        return [(x, r), (m, rm), (g, rg), (w_, rw)]
+    C.append(('program-masks-and-inplace-ops', prog_masks))
 
     def asarray_alias(c):
         x = sym(c, a5.copy())
